@@ -136,7 +136,7 @@ func (c *Ctx) chunkAllocs(fn *ssa.Function) []chunkInfo {
 		rewrite := func(t string) string {
 			// ids of sibling chunks made by the same call are spelled as fn sees them
 			for k, in := range byRes {
-				if in != nil && resVal[k] != nil && in.id != "" {
+				if in != nil && resVal[k] != nil && in.id != "" && in.idLoad != nil && counterIncrement(in.idDef) {
 					t = strings.ReplaceAll(t, in.id, "\x00"+strconv.Itoa(k)+"\x00")
 				}
 			}
@@ -154,6 +154,10 @@ func (c *Ctx) chunkAllocs(fn *ssa.Function) []chunkInfo {
 			}
 			ci := chunkInfo{fn: fn, a: resVal[k], ctor: g, ctorIdx: k}
 			ci.id = c.term(fn, resVal[k]) + ".id"
+			if !(in.idLoad != nil && counterIncrement(in.idDef)) && strings.HasPrefix(in.id, "$") && strings.HasSuffix(in.id, ".id") {
+				// the helper copies an id it was given (a finalisation copy), it does not allocate one
+				ci.id = rewrite(in.id)
+			}
 			ci.retID = rewrite(in.retID)
 			ci.stmts = rewrite(in.stmts)
 			out = append(out, ci)
@@ -301,7 +305,7 @@ func c01c(c *Ctx) {
 			key := fmt.Sprintf("%s/%s#%d.id", c.W.FuncKey(fn), chunkRole(ci), ci.idx)
 			pos := c.W.Pos(ci.a.Pos())
 			switch {
-			case ci.ctor != nil:
+			case ci.ctor != nil && strings.HasPrefix(ci.id, c.term(fn, ci.a)):
 				// made by a constructor helper: the helper's own literal is checked when the loop
 				// reaches the helper; here: it takes its id from a counter increment of its own
 				okC := false
@@ -666,6 +670,11 @@ func c01d(c *Ctx) {
 					idT = c.fieldAtUse(fn, a, "id", u)
 				} else {
 					idT = valT + ".id"
+					for _, ci := range c.chunkAllocs(fn) {
+						if ssa.Value(ci.a) == u.Value {
+							idT = ci.id
+						}
+					}
 				}
 				c.Check(keyT == idT, fmt.Sprintf("emitScriptStatement/finalChunks-key#%d", i), c.W.Pos(u.Pos()), "finalChunks key is the stored chunk's id", "finalChunks["+pretty(keyT)+"] stores a chunk whose id is "+pretty(idT))
 			}
@@ -900,6 +909,11 @@ func c01b(c *Ctx) {
 		}
 		if _, isAlloc := mu.Value.(*ssa.Alloc); isAlloc {
 			return
+		}
+		for _, ci := range c.chunkAllocs(fn) {
+			if ssa.Value(ci.a) == mu.Value {
+				return // a chunk made here through a constructor helper: judged with the literals above
+			}
 		}
 		if m, ok := mu.Map.Type().Underlying().(*types.Map); !ok || !typeIs(m.Elem(), "emitter", "chunk") {
 			return
